@@ -130,7 +130,7 @@ def same(env, a, b):
     return env.eq(a, b)
 
 
-def content(env, topo, t, method):
+def content(env, topo, t, method, limit=None):
     """O1: what every store holds after one canonical build/solve/build/solve of frame t."""
     fs, F, builts = make(env, topo, "a")
     vs = VersorStub(env, fs, builts)
@@ -139,7 +139,7 @@ def content(env, topo, t, method):
         kw = dict(allow_negatives=False)
         if method:
             kw["method"] = method
-        F.build_force_matrix(when=t, angle_limit=np.inf)
+        F.build_force_matrix(when=t, angle_limit=np.inf if limit is None else limit)
         with warnings.catch_warnings():
             warnings.simplefilter("ignore")
             F.solve_stress(when=t, **kw)
@@ -156,12 +156,20 @@ def content(env, topo, t, method):
     internal = fr.internal_big_edges
     n = len(internal)
     obs = []
+    fm = F.force_matrices[t]
+    used = [tuple(e) for e in fm.big_edges_to_use]
     obs.append(Ob("one-force-per-internal-interface", len(fr.forces) == n and list(fr.forces.keys()) == list(range(n))))
     ok = env.true()
+    k = 0
     for i, be in enumerate(internal):
-        ok = ok & env.eq(fr.forces[i], x[i]) & env.eq(be.tension, x[i])
-        for eid in be.edges:
-            ok = ok & env.eq(fr.edges[eid].tension, x[i])
+        if tuple(be.get_vertices_ids()) in used:
+            ok = ok & env.eq(fr.forces[i], x[k]) & env.eq(be.tension, x[k])
+            for eid in be.edges:
+                ok = ok & env.eq(fr.edges[eid].tension, x[k])
+            k += 1
+        else:
+            # excluded by the angle limit: reported as -1, nothing stored on it
+            ok = ok & env.eq(fr.forces[i], -1) & env.eq(be.tension, 0)
     obs.append(Ob("ith-force-is-ith-interface-and-equals-stored-tensions", ok))
     ext_ok = env.true()
     for be in fr.big_edges.values():
@@ -173,7 +181,7 @@ def content(env, topo, t, method):
     df = fr.get_tensions()
     obs.append(Ob("tension-table-lists-internal-interfaces-in-order",
                   (list(df["id"]) == [be.big_edge_id for be in internal]) &
-                  env.conj([env.eq(v, x[i]) for i, v in enumerate(list(df["stress"]))]) if len(df) == n else False))
+                  env.conj([env.eq(v, be.tension) for v, be in zip(list(df["stress"]), internal)]) if len(df) == n else False))
     obs.append(Ob("solver-store-forces-keyed-by-frame", (F.forces[t] is fr.forces) and F.forces[1 - t] is None))
     pm = F.pressure_matrices[t]
     sol = pm.solution
@@ -216,6 +224,9 @@ def alphabet(tier):
 def history(env, topo, t, length, first, tier, rebuild=True):
     """O2: prefix of `length` calls (the first one fixed per job to spread the work), then the canonical calls."""
     al = alphabet(tier)
+    if not rebuild:
+        # the canonical calls re-use the matrix built in the warm-up, so the free calls must not rebuild it
+        al = [c for c in al if c[0] not in ("B", "V")]
     fs, FA, bA = make(env, topo, "a")
     fs, FB, bB = make(env, topo, "a")
     both = {("A", k): v for k, v in bA.items()}
@@ -235,8 +246,6 @@ def history(env, topo, t, length, first, tier, rebuild=True):
         prefix += [al[first]] if length >= 1 else []
         for k in range(1, length):
             prefix.append(env.choice(f"call{k}", al))
-        if not rebuild:
-            prefix.append(("B", t, {}))
         valid = True
         for c in prefix:
             try:
@@ -280,7 +289,14 @@ def jobs(tier):
                 js.append(Job(f"history-{topo}-t{t}-first{first}-len{L}", "c10:history",
                               dict(topo=topo, t=t, length=L, first=first, tier=tier), budget_s=1500, max_paths=20000,
                               weight=3, opts=dict(cheap_forks=True)))
-        js.append(Job(f"history-{topo}-resolve-without-rebuild", "c10:history",
-                      dict(topo=topo, t=1, length=2, first=2, tier=tier, rebuild=False), budget_s=1500, max_paths=20000, weight=3,
-                      opts=dict(cheap_forks=True)))
+        nal2 = len([c for c in alphabet(tier) if c[0] not in ("B", "V")])
+        for first in range(nal2):
+            js.append(Job(f"history-{topo}-resolve-without-rebuild-first{first}", "c10:history",
+                          dict(topo=topo, t=1, length=1 if quick else 2, first=first, tier=tier, rebuild=False), budget_s=1500,
+                          max_paths=20000, weight=3, opts=dict(cheap_forks=True)))
+    for topo in ("T3",) if quick else ("T3", "K3"):
+        for method in (None, "lsq_linear"):
+            js.append(Job(f"content-{topo}-t0-{method or 'default'}-limit=2pi/3", "c10:content",
+                          dict(topo=topo, t=0, method=method, limit=2 * np.pi / 3), budget_s=900, max_paths=3000,
+                          opts=dict(cheap_forks=True), weight=4))
     return js
